@@ -385,6 +385,16 @@ func appendPartsC(c *ssa.Call) (base ssa.Value, elems []ssa.Value, spread ssa.Va
 // spread argument) and the leaves the chain bottoms out in (nil constants and empty literals are
 // not reported as leaves).
 func sliceChainC(v ssa.Value) (appends []*ssa.Call, leaves []ssa.Value) {
+	return sliceChainOptC(v, true)
+}
+
+// sliceChainBaseC is sliceChainC without following spread arguments (append(a, b...) contributes
+// only a): the caller inspects each spread itself.
+func sliceChainBaseC(v ssa.Value) (appends []*ssa.Call, leaves []ssa.Value) {
+	return sliceChainOptC(v, false)
+}
+
+func sliceChainOptC(v ssa.Value, followSpread bool) (appends []*ssa.Call, leaves []ssa.Value) {
 	seen := map[ssa.Value]bool{}
 	var rec func(v ssa.Value)
 	rec = func(v ssa.Value) {
@@ -420,7 +430,7 @@ func sliceChainC(v ssa.Value) (appends []*ssa.Call, leaves []ssa.Value) {
 				appends = append(appends, x)
 				base, _, spread := appendPartsC(x)
 				rec(base)
-				if spread != nil {
+				if spread != nil && followSpread {
 					rec(spread)
 				}
 				return
@@ -860,4 +870,236 @@ func sortedKeysC(m map[string]bool) []string {
 	}
 	sort.Strings(out)
 	return out
+}
+
+// ---------------------------------------------------------------------------------------------
+// Interprocedural identity of values (helper extraction)
+
+// aliasC resolves a value to the value it denotes across repository helper boundaries:
+//   - a parameter of a repository function with exactly one static call site (inside reach) denotes
+//     the argument at that site (a parameter captured by a closure and spilled to a cell included);
+//   - result #i of a call to a repository function whose every return yields the same value for #i
+//     (nil constants on error returns ignored) denotes that value (e.g. a map made by the helper).
+//
+// Anything else denotes itself. Used to recognise "the same map/pod" after a helper was extracted.
+type aliasC struct {
+	p     *Prog
+	reach map[*ssa.Function]bool
+	memo  map[ssa.Value]ssa.Value
+}
+
+func newAliasC(p *Prog, reach map[*ssa.Function]bool) *aliasC {
+	return &aliasC{p: p, reach: reach, memo: map[ssa.Value]ssa.Value{}}
+}
+
+// resultOf returns the single value every return of fn yields for result #idx (nil if none/several).
+func (a *aliasC) resultOf(fn *ssa.Function, idx int) ssa.Value {
+	var val ssa.Value
+	for _, b := range fn.Blocks {
+		ret := returnOfC(b)
+		if ret == nil || idx >= len(ret.Results) {
+			continue
+		}
+		for _, o := range origins(ret.Results[idx]) {
+			if isNilConst(o) {
+				continue
+			}
+			if val != nil && val != o {
+				return nil
+			}
+			val = o
+		}
+	}
+	return val
+}
+
+func returnOfC(b *ssa.BasicBlock) *ssa.Return { return returnOf(b) }
+
+func (a *aliasC) canon(v ssa.Value) ssa.Value {
+	if r, ok := a.memo[v]; ok {
+		return r
+	}
+	ch := a.chain(v)
+	a.memo[v] = ch[len(ch)-1]
+	return ch[len(ch)-1]
+}
+
+// chain returns v and every value it successively resolves to (the last one is canon(v)).
+func (a *aliasC) chain(v ssa.Value) []ssa.Value {
+	out := []ssa.Value{v}
+	for i := 0; i < 8; i++ {
+		next := ssa.Value(nil)
+		switch x := v.(type) {
+		case *ssa.ChangeType:
+			next = x.X
+		case *ssa.UnOp:
+			if x.Op == token.MUL {
+				if al, ok := x.X.(*ssa.Alloc); ok {
+					if sv := spillOfC(al); sv != nil {
+						if _, isP := sv.(*ssa.Parameter); isP {
+							next = sv
+						}
+					}
+				}
+			}
+		case *ssa.Parameter:
+			fn := x.Parent()
+			if fn == nil || !a.p.IsRuleSite(fn) {
+				break
+			}
+			sites := callSitesOf(fn, a.reach)
+			idx := paramIndex(x)
+			if len(sites) == 1 && idx >= 0 && idx < len(sites[0].Common().Args) {
+				next = sites[0].Common().Args[idx]
+			}
+		case *ssa.Extract:
+			if c, ok := x.Tuple.(*ssa.Call); ok {
+				if cal := staticCallee(&c.Call); cal != nil && a.p.IsRuleSite(cal) {
+					next = a.resultOf(cal, x.Index)
+				}
+			}
+		case *ssa.Call:
+			if cal := staticCallee(&x.Call); cal != nil && a.p.IsRuleSite(cal) && cal.Signature.Results().Len() == 1 {
+				next = a.resultOf(cal, 0)
+			}
+		}
+		if next == nil {
+			break
+		}
+		v = next
+		out = append(out, v)
+	}
+	return out
+}
+
+// same reports whether two values denote the same object.
+func (a *aliasC) same(x, y ssa.Value) bool {
+	if x == nil || y == nil {
+		return false
+	}
+	return x == y || a.canon(x) == a.canon(y)
+}
+
+// freeVarBindingC returns the value bound to free variable fv of closure fn at the (single)
+// MakeClosure in its parent; nil if not unique.
+func freeVarBindingC(fv *ssa.FreeVar) ssa.Value {
+	fn := fv.Parent()
+	if fn == nil || fn.Parent() == nil {
+		return nil
+	}
+	idx := -1
+	for i, f := range fn.FreeVars {
+		if f == fv {
+			idx = i
+		}
+	}
+	var bound ssa.Value
+	for _, b := range fn.Parent().Blocks {
+		for _, in := range b.Instrs {
+			if mc, ok := in.(*ssa.MakeClosure); ok && mc.Fn == ssa.Value(fn) && idx >= 0 && idx < len(mc.Bindings) {
+				if bound != nil && bound != mc.Bindings[idx] {
+					return nil
+				}
+				bound = mc.Bindings[idx]
+			}
+		}
+	}
+	return bound
+}
+
+// denotesParamC: v is parameter p, a load of the cell p was spilled into, or — inside a closure of
+// p's function — the captured variable holding p (by reference or by value).
+func denotesParamC(v ssa.Value, p *ssa.Parameter) bool {
+	v = unwrap(v)
+	if isParamOrSpillC(v, p) {
+		return true
+	}
+	var fv *ssa.FreeVar
+	if ld, ok := v.(*ssa.UnOp); ok && ld.Op == token.MUL {
+		fv, _ = ld.X.(*ssa.FreeVar)
+	} else {
+		fv, _ = v.(*ssa.FreeVar)
+	}
+	if fv == nil {
+		return false
+	}
+	b := freeVarBindingC(fv)
+	if b == nil {
+		return false
+	}
+	if b == ssa.Value(p) {
+		return true
+	}
+	if al, ok := b.(*ssa.Alloc); ok {
+		return spillOfC(al) == ssa.Value(p)
+	}
+	return false
+}
+
+// closeBoolEqC saturates a fact set with the consequences of equalities between boolean
+// conditions: from (A == B) = p and a known truth value of A (all atomic facts of A present), the
+// atomic facts of B follow. Returns false when a contradiction is derived (the case is infeasible).
+func closeBoolEqC(k *keyer, fs factSet) bool {
+	truth := func(v ssa.Value) (bool, bool) {
+		if b, ok := constBool(v); ok {
+			return b, true
+		}
+		ft := k.normCond(v, true)
+		all := len(ft) > 0
+		for _, f := range ft {
+			if !fs.has(f.Key, f.Pol) {
+				all = false
+			}
+		}
+		if all {
+			return true, true
+		}
+		if len(ft) == 1 && fs.has(ft[0].Key, !ft[0].Pol) {
+			return false, true
+		}
+		return false, false
+	}
+	isBool := func(v ssa.Value) bool {
+		b, ok := v.Type().Underlying().(*types.Basic)
+		return ok && b.Info()&types.IsBoolean != 0
+	}
+	for iter := 0; iter < 8; iter++ {
+		changed := false
+		var cur []Fact
+		for _, f := range fs {
+			cur = append(cur, f)
+		}
+		for _, f := range cur {
+			c, ok := decodeCmpC(f)
+			if !ok || c.Op != "==" || !isBool(c.X) || !isBool(c.Y) {
+				continue
+			}
+			for _, pr := range [][2]ssa.Value{{c.X, c.Y}, {c.Y, c.X}} {
+				av, known := truth(pr[0])
+				if !known {
+					continue
+				}
+				bv := av == c.Pol // (A==B)=true: B=A ; false: B=!A
+				for _, nf := range k.normCond(pr[1], bv) {
+					if fs.has(nf.Key, !nf.Pol) {
+						return false
+					}
+					if !fs.has(nf.Key, nf.Pol) {
+						fs[fkey(nf)] = nf
+						changed = true
+					}
+				}
+			}
+		}
+		if !changed {
+			break
+		}
+	}
+	// plain contradiction check
+	for _, f := range fs {
+		if fs.has(f.Key, !f.Pol) {
+			return false
+		}
+	}
+	return true
 }
